@@ -534,16 +534,8 @@ func (il *inliner) prepare(files []*ast.File) {
 		if asValue[fn] || strings.HasPrefix(fn.Name(), "init") || fn.Name() == "main" || il.known[funcKeyOf(il.pkgRel, fd)] {
 			continue
 		}
-		if fn.Exported() {
-			// a new exported accessor / predicate whose whole body is one return of an expression (IsExited, Len, ...)
-			// is expanded at its uses inside the package; the declaration stays
-			if len(fd.Body.List) != 1 {
-				continue
-			}
-			if _, isRet := fd.Body.List[0].(*ast.ReturnStmt); !isRet {
-				continue
-			}
-		}
+		// a new exported function (IsExited, ThresholdFor, ...) is expanded at its uses inside the package like any other
+		// new helper; its declaration stays (removeDeadHelpers only drops unexported ones)
 		if fd.Type.TypeParams != nil {
 			continue
 		}
